@@ -515,6 +515,8 @@ class Interp(object):
         if getattr(fn, "__name__", None) == "providedBy" and hasattr(getattr(fn, "__self__", None), "implementedBy") \
                 and len(args) == 1 and not isinstance(args[0], (SObj, SStr, SBytes, SHash, SList, Opaque, z3.ExprRef)):
             return bool(fn(args[0]))                                # zope.interface on a real python object
+        if isinstance(fn, types.MethodType) and (type(fn.__self__).__module__ or "").split(".")[0] == "eliot":
+            return Opaque("eliot")      # logging actions/contexts: no effect on program state
         if isinstance(fn, types.MethodType):
             # bound method of a real object: python-source methods are interpreted with the real object as self
             f0 = fn.__func__
